@@ -74,11 +74,22 @@ pub fn stat(req: &Req) -> R<String> {
 	if samples > 50_000_000 || (n > 64 && !kind.ends_with("pos")) || n > 1 << 22 {
 		return Err(Bad);
 	}
+	// `pre=`: ops run first (a byte fill misaligns a block generator's buffer: the draws then straddle word and block boundaries)
+	let pre = req.strs("pre");
+	macro_rules! go {
+		($g:expr) => {{
+			let mut r = $g;
+			for op in &pre {
+				crate::word::run_op_noclone(&mut r, op)?;
+			}
+			run(r, kind, n, k, samples, hint)
+		}};
+	}
 	match req.opt("gen").unwrap_or("xoshiro") {
-		"xoshiro" => run(Xoshiro256::from_seed(seed), kind, n, k, samples, hint),
-		"splitmix" => run(SplitMix64::from_seed(seed), kind, n, k, samples, hint),
-		"wyrand" => run(Wyrand::from_seed(seed), kind, n, k, samples, hint),
-		"chacha8" => run(ChaCha8::from_seed(seed), kind, n, k, samples, hint),
+		"xoshiro" => go!(Xoshiro256::from_seed(seed)),
+		"splitmix" => go!(SplitMix64::from_seed(seed)),
+		"wyrand" => go!(Wyrand::from_seed(seed)),
+		"chacha8" => go!(ChaCha8::from_seed(seed)),
 		_ => Err(Bad),
 	}
 }
@@ -148,11 +159,21 @@ pub fn statd(req: &Req) -> R<String> {
 	if samples > 2_000_000_000 || edges.windows(2).any(|p| !(p[0] < p[1])) {
 		return Err(Bad);
 	}
+	let pre = req.strs("pre");
+	macro_rules! go {
+		($g:expr) => {{
+			let mut r = $g;
+			for op in &pre {
+				crate::word::run_op_noclone(&mut r, op)?;
+			}
+			rund(r, dist, w, a, b, samples, &edges)
+		}};
+	}
 	match req.opt("gen").unwrap_or("xoshiro") {
-		"xoshiro" => rund(Xoshiro256::from_seed(seed), dist, w, a, b, samples, &edges),
-		"splitmix" => rund(SplitMix64::from_seed(seed), dist, w, a, b, samples, &edges),
-		"wyrand" => rund(Wyrand::from_seed(seed), dist, w, a, b, samples, &edges),
-		"chacha8" => rund(ChaCha8::from_seed(seed), dist, w, a, b, samples, &edges),
+		"xoshiro" => go!(Xoshiro256::from_seed(seed)),
+		"splitmix" => go!(SplitMix64::from_seed(seed)),
+		"wyrand" => go!(Wyrand::from_seed(seed)),
+		"chacha8" => go!(ChaCha8::from_seed(seed)),
 		_ => Err(Bad),
 	}
 }
